@@ -56,6 +56,10 @@ CLAIMED = {
    technique="deterministic replay across configurations: the seeded plans (with their injected faults) of the protocol simulations and of an edge-biased primitive transcript are executed in separate processes under {default, purego, cpu.avx2=off, cpu.bmi2=off, cpu.adx=off, all off}; event-log digests are diffed and a difference is bisected to the first differing event",
    text="The simulator's replay-equality check applied across build / CPU configurations: every plan of workloads c14prim (fp25519, fp448, x25519, x448, ed25519, ed448, goldilocks, fourq, curve4q, p384, csidh, sidh, sike, ML-KEM, Kyber, Dilithium, ML-DSA, SHAKE, K12, keccakf1600 x2/x4, Frodo, X-Wing with edge-biased operands) and C01, C02, C07, C08, C15, C16 (faults steer execution into rejection paths) must give the same event-log digest in all six configurations. A difference is reproduced, checked for self-determinism of both configurations, bisected to the first differing event and reported with the plan as replay file.",
    note="Field results are compared in canonical form; arm64 back-ends cannot run here; tkn20 excluded (unordered map iteration); GODEBUG feature switches honoured by x/sys/cpu on this machine."),
+ "C11": dict(engine="histsim+schedsim", level="exploration", ref="DESIGN.md §2.4, §3 C11",
+   technique="deterministic simulation: (a) seeded object histories with deliberate aliasing / reuse / decode-into-used-object against a value model; (b) seeded scheduler over source-instrumented copies of the library (pre-emption at any statement, biased to just after shared writes) with a sequential-equivalence oracle; (c) the same schedules in a -race build with ThreadSanitizer as oracle (hand-off invisible to the race detector)",
+   text="Histories: pools of long-lived group / curve / key / polynomial / sharing objects are driven through aliasing-heavy operation sequences; after each step the receiver equals the value-model prediction computed on fresh objects, no other object changed, decoding into a used object equals decoding into a fresh one, and Generator/Identity/Order/Params still return their original bytes even after returned objects were mutated. Schedules: 2..4 caller tasks perform read-only calls (public-key derivation, sign, verify, encapsulate, decapsulate, HPKE setup, OPRF evaluation, threshold signing, group constants) on one shared object set while the seeded scheduler pre-empts them at planned statements; every call must return what it returns alone, and the race detector must report nothing.",
+   note="Instrumentation is generated at check time by yieldgen (go build -overlay), nothing is committed to /repo; library-internal goroutines (tss/rsa parallel blinding) are not scheduled; Prio3 instances are single-owner by design and not run concurrently."),
 }
 
 NA = {
@@ -91,14 +95,15 @@ m = {
  "setup_cmd": "bin/setup",
  "hooks": {
    "guard": "verif",
-   "enable": "no hook is committed to /repo: checks build the harness module /verif/sim with `replace github.com/cloudflare/circl => /repo`; the scheduler engine adds `-tags verif -overlay <generated at check time>` (instrumented copies + shim packages from /verif/shim)",
+   "enable": "no hook is committed to /repo: checks build the harness module /verif/sim with `replace github.com/cloudflare/circl => /repo` and `-tags verif -overlay <generated at check time>` (bin/mkoverlay: add-only shim packages from /verif/shim; for C11 additionally yieldgen's statement-instrumented copies of the library sources)",
    "baseline_off_cmd": "cd /repo && GOFLAGS=-mod=mod GOPROXY=off GOSUMDB=off GOTOOLCHAIN=local go test -vet=off -count=1 -timeout 25m ./...",
    "source_commits": [],
    "add_only": True,
  },
  "engines": [
    {"name": "codecsim", "path": "sim/codec", "serves_properties": ["C09", "C10"], "kind_free_text": "encode -> fault-injecting medium -> decode, enumerated fault families per entry point"},
-   {"name": "histsim", "path": "sim/props/c15 (+c11)", "serves_properties": ["C11", "C15"], "kind_free_text": "single-owner object histories against value / one-shot reference models"},
+   {"name": "schedsim", "path": "sim/cmd/yieldgen + shim/verifsimrt + sim/props/c11sched", "serves_properties": ["C11"], "kind_free_text": "seeded scheduler over statement-instrumented library sources; equivalence and race-detector oracles"},
+   {"name": "histsim", "path": "sim/props/c15, sim/props/c11hist", "serves_properties": ["C11", "C15"], "kind_free_text": "single-owner object histories against value / one-shot reference models"},
    {"name": "confsim", "path": "sim/props/c14 + c14prim", "serves_properties": ["C14"], "kind_free_text": "multi-process replay of the same seeded plans under each build / CPU configuration with event-log diff"},
    {"name": "netsim", "path": "sim/core + sim/props/*", "serves_properties": sorted(p for p in CLAIMED if CLAIMED[p]["engine"].startswith("netsim")), "kind_free_text": "seeded protocol simulation: nodes are real circl calls, the simulator owns transport, disk, entropy and crashes"},
  ],
